@@ -129,7 +129,13 @@ BigCases == {<<Arch(1, MaxInt31)>>, <<Arch(1, MaxRecords)>>, <<Arch(1, MaxRecord
              <<Arch(2, 1073741824)>>, <<Arch(2, 1073741823)>>, <<Arch(1, 631152000)>>, <<Arch(60, 35791394)>>,
              <<Arch(60, 35791395)>>, <<Arch(1, 178956969), Arch(2, 178956969)>>, <<Arch(1, 178956968), Arch(2, 178956969)>>,
              <<Arch(1, 178956969), Arch(2, 178956968)>>, <<Arch(1, 100), Arch(1073741824, 1)>>, <<Arch(1, 100), Arch(2147483647, 1)>>,
-             <<Arch(86400, 24855)>>, <<Arch(86400, 24856)>>}
+             <<Arch(86400, 24855)>>, <<Arch(86400, 24856)>>,
+             \* the file is too long because of an archive that is NOT the last one (every other rule holds)
+             <<Arch(1, 631152000), Arch(60, 35740800)>>, <<Arch(1, 357913942), Arch(60, 35740800)>>,
+             <<Arch(1, 357913900), Arch(60, 35740800)>>, <<Arch(1, 322000000), Arch(60, 35740800)>>,
+             <<Arch(1, 346896000), Arch(60, 35740800), Arch(3600, 595704)>>,
+             <<Arch(1, 715827880), Arch(60, 35740800)>>, <<Arch(1, 715827884), Arch(2, 1073741000)>>,
+             <<Arch(1, 1000), Arch(10, 200000000), Arch(100, 21474836)>>}
 AllCases == SmallCases \cup TripleCases \cup BigCases \cup {<<>>}
 
 CONSTANT Export
